@@ -83,6 +83,8 @@ enum OpKind : int {
   OP_I_INTERP, OP_Q_NUMINT,
   // mailbox
   OP_M_SEND, OP_M_RECV,
+  // pinned references into grid storage (checked after every later operation)
+  OP_X_PIN,
   OP_NKINDS
 };
 const char *op_name(int kind);
@@ -172,6 +174,16 @@ struct World {
 std::vector<Val> grid_points(const Plan &p, int variant, uint32_t j);
 constexpr int N_GRID_VARIANTS = 8;
 
+// A reference obtained from a public accessor of a live object. It must stay
+// valid and unchanged for as long as that object is neither assigned to,
+// moved from nor destroyed (C09: no dangling storage; C14: grids never change).
+struct Pin {
+  int slot;          // flat slot of the owning private object, or -1: shared const object
+  const T *ptr;
+  uint64_t bits;
+  int via;           // accessor it came from
+};
+
 struct ExecCtx {
   World &w;
   int task;  // -1: main (setup)
@@ -179,6 +191,7 @@ struct ExecCtx {
   const Op &op;
   Outcome out;
   bool allow_mail = true;  // false in sweeps
+  std::vector<Pin> *pins = nullptr;  // null in sweeps and during setup
   ExecCtx(World &w_, int task_, Pool &pool_, const Op &op_)
       : w(w_), task(task_), pool(pool_), op(op_) {}
 };
@@ -306,7 +319,8 @@ enum Probe : int {
   PR_POST_FAILURE_REUSE, PR_SELF_ASSIGN, PR_SELF_IADD, PR_XGRID_CALL,
   PR_XGRID_REFUSED, PR_EQGRID_DISTINCT, PR_IDX_IN, PR_IDX_EDGE, PR_IDX_HUGE,
   PR_IDX_WRAP, PR_LAST_OWNER_TASK, PR_MSG_SENT, PR_MSG_RECV, PR_C03_COMPARED,
-  PR_SWEEP_POINTS, PR_FACTOR_INSIDE, PR_TWIN_COMPARED, PR_NKINDS
+  PR_SWEEP_POINTS, PR_FACTOR_INSIDE, PR_TWIN_COMPARED, PR_PIN_TAKEN, PR_PIN_CHECKED,
+  PR_NKINDS
 };
 const char *probe_name(int p);
 void probe(int p, uint64_t n = 1);
